@@ -101,6 +101,7 @@ def c04_oracle(base, spec, out, keys=None):
     tables = SC.spec_tables()
     vb, vo = SC.SpecView(base), SC.SpecView(out)
     auth = authored_triggers(spec)
+    numbers = {}
     if auth:
         first_trig = vo.by_name.get(b"TRIG", [b""])[0]
         trigs = S.spec_parse(S.SPEC_FULL["TRIG"], first_trig, 0)[0]["_triggers"]
@@ -130,6 +131,10 @@ def c04_oracle(base, spec, out, keys=None):
                     row = {a: (c, f) for a, c, en, f in tables[kind][k]["args"]}
                     for name, v in args:
                         c, f = row[name]
+                        if v[0] in (2, 8):
+                            # one authored object (a pool entry) is ONE slot, however many triggers, added in however many
+                            # steps, refer to it
+                            numbers.setdefault((v[0], v[1]), set()).add(rec[f])
                         want = expected_arg(c, v, spec, vb, vo)
                         have = view.get(name)
                         if name == "_duration_ms" and v[0] == 11:
@@ -153,6 +158,11 @@ def c04_oracle(base, spec, out, keys=None):
                                     f"{f} denotes {have!r}, authored {want!r}")
                     if any(x for _, x in view["_unused"]):
                         return f"authored trigger {ti} {part}[{ei}]: a field the type does not use is not zero"
+    if not any(o[0] == "save_reload" for o in spec["ops"]):
+        for (tag, k), nums in numbers.items():
+            if len(nums) > 1:
+                what = "location" if tag == 2 else "switch"
+                return f"the one authored {what} #{k} of the pool is referred to under {len(nums)} different numbers {sorted(nums)}"
     # unit settings
     last = {}
     for op in spec["ops"]:
@@ -235,6 +245,34 @@ def c07_oracle(base, spec, unedited, out):
             if a and vb.text(a) != vo.text(int.from_bytes(wo[-1][4 * k:4 * k + 4], "little")):
                 return f"sound slot {k} changed"
     tb, to = vb.triggers(), vo.triggers()
+    # a switch NUMBER that pre-existing triggers use is occupied, named or not: no new switch may be given that number
+    tables = SC.spec_tables()
+    sw_args = {(kind, key): [a for a, c, e, f in row["args"] if c == "switch"]
+               for kind in ("conditions", "actions") for key, row in tables[kind].items()}
+    used_old = set()
+    for t in tb:
+        for kind in ("conditions", "actions"):
+            for e in t[kind]:
+                if isinstance(e, dict):
+                    for a in sw_args.get((kind, e["type"]), []):
+                        used_old.add(e[a][0])
+    for k in sorted(used_old):
+        if vb.swnm and not vb.switch(k)[1] and vo.swnm and vo.switch(k)[1]:
+            return f"switch {k} (unnamed, used by existing triggers) was given to a new switch named {vo.switch(k)[1]!r}"
+    auth = authored_triggers(spec)
+    if len(vb.by_name.get(b"TRIG", [])) == 1 and not any(o[0] == "save_reload" for o in spec["ops"]) and len(to) == len(tb) + len(auth):
+        for t, g in zip(auth, to[len(tb):]):
+            for part, kind in (("conds", "conditions"), ("acts", "actions")):
+                for e, ge in zip(t[part], g[kind]):
+                    if e[0] != "rich" or not isinstance(ge, dict):
+                        continue
+                    for name, v in e[2]:
+                        if v[0] == 8 and name in sw_args.get((kind, e[1]), []) and ge[name][0] in used_old:
+                            old_name = vb.switch(ge[name][0])[1] if vb.swnm else None
+                            new_name = spec["pool"]["switches"][v[1]][0]
+                            if not old_name or old_name != new_name:
+                                return (f"a new switch ({new_name!r}) was given number {ge[name][0]}, which existing triggers "
+                                        f"already use (for {old_name!r})")
     if len(vb.by_name.get(b"TRIG", [])) == 1:
         if len(to) < len(tb):
             return f"{len(tb)} triggers before, {len(to)} after"
